@@ -29,15 +29,24 @@ type TimedScenario struct {
 	CancelAt int // delay / delayeach: the subscription context (parent of every item context) is cancelled this many microseconds after subscription (0 = never)
 }
 
-var timedOps = []string{"delay", "delay", "delayeach", "timeout", "timeout", "interval", "intervalinitial", "timer", "throttle", "sample", "buffertime", "buffertimecount", "samplesource"}
+var timedOps = []string{"delay", "delay", "delayeach", "timeout", "timeout", "interval", "intervalinitial", "timer", "throttle", "sample", "buffertime", "buffertimecount", "samplesource", "ctxtimeout"}
+
+// OnlyTimedOp restricts GenTimed to one operator ("" = all).
+var OnlyTimedOp string
 
 func GenTimed(r *rand.Rand) TimedScenario {
-	sc := TimedScenario{Op: timedOps[r.Intn(len(timedOps))], D: 1000 * (2 + r.Intn(12))}
+	opName := timedOps[r.Intn(len(timedOps))]
+	if OnlyTimedOp != "" {
+		opName = OnlyTimedOp
+	}
+	sc := TimedScenario{Op: opName, D: 1000 * (2 + r.Intn(12))}
 	switch sc.Op {
 	case "intervalinitial":
 		sc.P2 = 1000 * (1 + r.Intn(8))
 	case "buffertimecount":
 		sc.P2 = 1 + r.Intn(3)
+	case "ctxtimeout":
+		sc.P2 = []int{0, sc.D / 2, 2 * sc.D, 3 * sc.D}[r.Intn(4)] // the pipeline is built this long before it is subscribed
 	}
 	n := 3 + r.Intn(8)
 	for i := 0; i < n; i++ {
@@ -120,6 +129,13 @@ func RunTimed(lg *rec.Log, sc TimedScenario, seed int64) []rec.Ev {
 		o = ro.Map(func(b []any) any { return b })(ro.BufferWithTime[any](d)(src))
 	case "buffertimecount":
 		o = ro.Map(func(b []any) any { return b })(ro.BufferWithTimeOrCount[any](sc.P2, d)(src))
+	case "ctxtimeout":
+		// ContextWithTimeout(d): every value gets a context that expires d after the value passed - however long ago the pipeline was BUILT
+		// (P2 = microseconds between building the pipeline and subscribing to it)
+		o = ro.ContextWithTimeout[any](d)(src)
+		if sc.P2 > 0 {
+			time.Sleep(time.Duration(sc.P2) * time.Microsecond)
+		}
 	case "interval", "samplesource":
 		o = ro.Map(func(v int64) any { return int(v) })(ro.Interval(d))
 		hasSource = false
@@ -139,6 +155,9 @@ func RunTimed(lg *rec.Log, sc TimedScenario, seed int64) []rec.Ev {
 			k := nrecv
 			rmu.Unlock()
 			e := rec.Ev{E: "recv", K: "N", U: us(), B: ctx != nil && ctx.Value(rec.KeySub) != nil}
+			if sc.Op == "ctxtimeout" && ctx.Err() != nil {
+				e.I = 1 // the context of this value has already expired when the value arrives
+			}
 			switch x := v.(type) {
 			case int:
 				e.V = x
